@@ -327,8 +327,32 @@ func TestC17(t *testing.T) {
 		}
 		// append-and-rerun for up to 3 diagnostics
 		if len(res.Diags) > 0 {
+			// aimed: a diagnostic on a line that opens a construct spanning several lines
+			// while a later line of the file carries the same code (an inline comment
+			// covers its own line, not the construct)
+			var aimed []engine.Diag
+			for _, d := range res.Diags {
+				ls := strings.Split(src[d.File], "\n")
+				if d.Line < 1 || d.Line > len(ls) {
+					continue
+				}
+				l := strings.TrimSpace(ls[d.Line-1])
+				if !strings.HasSuffix(l, "{") && !strings.HasSuffix(l, "(") && !strings.HasSuffix(l, ",") {
+					continue
+				}
+				for _, o := range res.Diags {
+					if o.File == d.File && o.Code == d.Code && o.Line > d.Line {
+						aimed = append(aimed, d)
+						break
+					}
+				}
+			}
 			for k := 0; k < 3; k++ {
 				d := res.Diags[rapid.IntRange(0, len(res.Diags)-1).Draw(rt, "diagIdx")]
+				if k == 0 && len(aimed) > 0 && rapid.IntRange(0, 9).Draw(rt, "aimedDiag") < 7 {
+					d = aimed[rapid.IntRange(0, len(aimed)-1).Draw(rt, "aimedIdx")]
+					ev.Class(id, "append step aimed at a line that opens a multi-line construct holding the same code again")
+				}
 				sc := c
 				sc.File, sc.Line, sc.Code = d.File, d.Line, d.Code
 				why := c17Suppress(sc)
